@@ -292,12 +292,14 @@ def rule_trig(c: Ctx) -> RuleResult:
                         edges.append((n, "F", f"{U(a.left)} == '{lit}'"))
                     elif isinstance(a.ops[0], ast.Eq):
                         edges.append((n, "T", f"{U(a.left)} == '{lit}'"))
-                if kind == "minlen" and isinstance(a, ast.Compare) and len(a.ops) == 1 and isinstance(a.comparators[0], ast.Constant) \
-                        and a.comparators[0].value == lit and "len" in U(a.left).lower():
-                    if isinstance(a.ops[0], ast.Lt):
-                        edges.append((n, "F", f"{U(a.left)} >= {lit}"))
-                    elif isinstance(a.ops[0], ast.GtE):
-                        edges.append((n, "T", f"{U(a.left)} >= {lit}"))
+                if kind == "minlen":
+                    from ..syn import cmp_oriented
+                    co = cmp_oriented(a, lambda e: isinstance(e, (ast.Name, ast.Attribute)))
+                    if co is not None and isinstance(co[2], ast.Constant) and co[2].value == lit and isinstance(co[0], (ast.Name, ast.Attribute)):
+                        if co[1] is ast.Lt:
+                            edges.append((n, "F", f"<run length> >= {lit}"))
+                        elif co[1] is ast.GtE:
+                            edges.append((n, "T", f"<run length> >= {lit}"))
         kinds_found = {e[2].split(" ")[0] if False else e[2] for e in edges}
         if len(edges) < len(trigs):
             r.add(f"{f.short}|trigger-test", c.where(f, f.node), f.short, "trigger test", "violation",
